@@ -26,8 +26,9 @@ pub struct Case {
     pub follow: bool,
 }
 
+/// the same path, byte for byte, up to the spelling of separators and `.` components
 fn same(a: &Path, b: &Path) -> bool {
-    norm(a) == norm(b)
+    norm(a) == norm(b) && a.components().eq(b.components())
 }
 
 /// identities every entry must satisfy; `given`: the directory handed to the walk
@@ -94,7 +95,7 @@ impl Property for C14 {
         vec!["entries_checked", "glob_entries", "tree_entries", "residue_entries_observed", "rooted_entries", "prefixed_entries", "dotdot_entries", "noncanonical_base_entries", "depth_bounded_walks", "read_target_walks"]
     }
     fn decode(&self, t: &mut Tape) -> Case {
-        let tree = gen_tree(t, &TreeCfg { links: true, ..TreeCfg::default() });
+        let tree = gen_tree(t, &TreeCfg { links: true, non_utf8: true, ..TreeCfg::default() });
         let base = gen_base(t, &tree);
         let glob = if t.chance(60) {
             None
